@@ -55,7 +55,19 @@ def occurs(expr, const):
 
 
 def list_comp_other(self, e, st, spec):
-    raise EngineError("list comprehension over a non-range iterable: tier B")
+    """[elt for x in iterable [if c]] over any modelled iterable without filter: the list of the per-element values (fresh symbols of
+    the element evaluation become Skolem functions of the index, facts are universally closed - as for generator expressions)"""
+    from .genexp import gen_parts
+    g = e.generators[0]
+    if g.ifs:
+        raise EngineError("list comprehension with a filter")
+    desc, k, guard, cond, elt = gen_parts(self, ast.GeneratorExp(elt=e.elt, generators=e.generators), st, spec, allow_values=True)
+    new = Lifted.fresh(elt, "comp")
+    eqs = [c_new[k] == c for c_new, c in zip(new.cs, V.comps(elt))]
+    if eqs:
+        st.assume(z3.ForAll(k, z3.Implies(guard, z3.And(*eqs))))
+    self.used_models.add(TRUSTED)
+    return SList(zmax(desc.count, z3.IntVal(0)), new)
 
 
 Engine.ex_ListComp = list_comp
